@@ -148,7 +148,15 @@ pub fn run(a: &Args) {
                 Ok(o) => summarize(&store, &key, &mut nm, None, o.class()),
             };
             let ok = r.outcome == "ok";
+            let hung = r.outcome == "timeout";
             runs.push(rr_json(&r, &label));
+            if hung {
+                // worker threads of the hung run keep the global thread pool busy: nothing more can be run in this process
+                out.rec(&json!({"kind":"sched","id":format!("sc{s}-t{threads}"),"what":"backup","collision":false,"runs":runs}));
+                let ev = out.finish();
+                println!("{}", json!({"records": ev, "timeouts": timeouts}));
+                std::process::exit(0);
+            }
             // a second, smaller backup, forget the first, prune with repacking under the same perturbation
             if ok && k % 2 == 0 {
                 let mut e2 = src.entries.clone();
@@ -159,6 +167,12 @@ pub fn run(a: &Args) {
                 }
                 let src3 = MemSource::new(e2);
                 let (key3, h3) = (key.clone(), h.clone());
+                // the repacking variants rotate: plain / everything repacked / fast repack (raw copies of whole blobs)
+                let popts = match (k / 2) % 3 {
+                    0 => json!({"keep_delete":0,"max_unused":"0%","max_repack":"unlimited","instant":true,"repack_all":true,"fast":true}),
+                    1 => json!({"keep_delete":0,"max_unused":"0%","max_repack":"unlimited","instant":true}),
+                    _ => json!({"keep_delete":0,"max_unused":"0%","max_repack":"unlimited","instant":true,"repack_all":true}),
+                };
                 let res = watchdog(60, move || {
                     scn::guard(|| {
                         let repo = scn::open(&h3, &key3)?.to_indexed_ids()?;
@@ -166,7 +180,7 @@ pub fn run(a: &Args) {
                         let r = scn::open(&h3, &key3)?;
                         let first: Vec<_> = r.get_all_snapshots()?.into_iter().filter(|s| s.id != s2.id).map(|s| s.id).collect();
                         r.delete_snapshots(&first)?;
-                        let po = prune_opts(&json!({"keep_delete":0,"max_unused":"0%","max_repack":"unlimited","instant":true}));
+                        let po = prune_opts(&popts);
                         let plan = r.prune_plan(&po)?;
                         r.prune(&po, plan)?;
                         Ok(s2)
@@ -180,7 +194,15 @@ pub fn run(a: &Args) {
                     Ok(Outcome::Ok(sn)) => summarize(&store, &key, &mut nm, Some(*sn.tree), "ok"),
                     Ok(o) => summarize(&store, &key, &mut nm, None, o.class()),
                 };
+                let hung = pr.outcome == "timeout";
                 prunes.push(rr_json(&pr, &label));
+                if hung {
+                    out.rec(&json!({"kind":"sched","id":format!("sc{s}-t{threads}"),"what":"backup","collision":false,"runs":runs}));
+                    out.rec(&json!({"kind":"sched","id":format!("sc{s}-t{threads}-prune"),"what":"backup+forget+prune","collision":false,"runs":prunes}));
+                    let ev = out.finish();
+                    println!("{}", json!({"records": ev, "timeouts": timeouts}));
+                    std::process::exit(0);
+                }
             }
         }
         out.rec(&json!({"kind":"sched","id":format!("sc{s}-t{threads}"),"what":"backup","collision":s % 2 == 0 && collide.is_some(),"runs":runs}));
